@@ -70,7 +70,7 @@ def r06_3(ctx):
     r.saw(mb["path"])
     g = C.cfg_of(ctx, mb)
     fl = flow_of(ctx, mb)
-    tb = c10._traversal_blocks(mb)
+    tb = c10._traversal_blocks(mb, ctx.facts)
     if not tb:
         r.ob("module method traverses", False, "-", "no child traversal")
         return r
